@@ -6,6 +6,7 @@ import Driver.Promela
 import Driver.Lua
 import Driver.DelayQ
 import Driver.Vhdl
+import Driver.Invoke
 open Driver
 
 partial def loop (h : IO.FS.Stream) (out : IO.FS.Stream) (f : String → String) : IO Unit := do
@@ -23,6 +24,7 @@ def commands : List (String × (String → String)) := [
   ("dq", dq),
   ("vhdl", vhdl),
   ("tstep", tstep),
+  ("invoke", invoke),
   ("legal", legal),
   ("nest", nest),
   ("tables", tables),
